@@ -2,7 +2,8 @@
 C06 — subsets of an uncompressed message are decoded independently of each other.
 
 Theorems: lean/BufrModel/Props/C06*.lean (frame lemma of the template walk; decoding s1..sn together =
-decoding each alone, permutation, the encoder's bits of together = concatenation of alone).
+decoding each alone, permutation, the encoder's bits of together = concatenation of alone; C06Wire.lean: the
+node tree of a subset depends on the template and that subset's flat lists only).
 
 Oracle ON THE IMPLEMENTATION (every generated case):
   * decode s1..sn together vs each si alone, position by position: values (exactly), labels, bitmap
@@ -14,7 +15,8 @@ Oracle ON THE IMPLEMENTATION (every generated case):
   * permutations: the subsets' bit strings concatenated in another order decode to the permuted
     result (all orders for n <= 4, random orders above) and the encoder given the reversed subsets
     produces the reversed bits.
-Correspondence: the together-message is decoded by the model (`dec-subsets`) and compared.
+Correspondence: the together-message is decoded by the model (`dec-subsets`) and wired by the model (`wire`,
+i.e. `wireAll`, about which Props/C06Wire.lean proves "subset by subset"); flat lists and node trees are compared.
 
 Templates: the grammar of C01 (levels 0-2) with structure NOT shared between subsets (different
 replication counts), plus families where state carried over would show: delayed replication before a
@@ -22,51 +24,68 @@ bitmap with different counts and bitmaps per subset (F4), bitmap reuse 236000/23
 203YYY defined in one subset only, 201/202/207/208 left open at the end, 204 left open, 221 count left
 open, 206 pending at the end, 203 definition left open, QA-info status pending, templates ending inside
 a bitmap definition, an associated-field / statistics meaning defined in one subset only.
+Plus the layout-varying bitmap templates of harness/c06gen.py (`layout`): several delayed replications of
+DIFFERENT elements, nested replication, 205YYY / 206YYY / 204YYY items in front of 1..3 bitmap constructs
+(222000 and the marker operators, 236000 / 237000 / 237255 / 235000 chains), with per-subset factors that
+compensate each other (equal flat length and bitmap length, different arrangement), bitmaps of equal or
+different length, equal / permuted / different bits, 2..5 subsets in shuffled order.
 """
 import itertools
 import json
 
-from harness import core, tables_io
+from harness import core, tables_io, views_io
 from harness import coder_io as C
 from harness import coderprops as P
+from harness import c06gen
 
 PROP = 'C06'
 
 META = dict(
     claimed=True,
     text='Kernel-checked theorems about the Lean model of the per-subset loop of decoder and encoder (every subset starts '
-         'from the initial register set; frame lemma: a subset\'s walk consumes a prefix and is unaffected by what follows): '
-         'decoding the concatenation of n subset bit strings gives, position by position, what decoding each alone gives; '
-         'permuting the subsets permutes the result; the encoder\'s bits of together are the concatenation of the bits of '
-         'each alone - for all templates of the model and any n; plus the tie to pybufrkit: together-vs-alone oracle on the '
-         'implementation (values, labels, links, nested JSON; alone = re-encoded and = cut at the model\'s bit boundaries), '
-         'encoder concatenation, all orders for n <= 4 / random orders above, on templates with differing replication counts '
-         'and bitmaps per subset and on templates that end inside an operator construct.',
-    technique='Lean 4 theorems (frame lemma by mutual structural induction over the template walk) + metamorphic oracle on the '
-              'implementation + checked model/implementation correspondence',
-    note='The hierarchical structure (wiring, templatedata.py) is not modelled: for it the claim rests on the implementation '
-         'oracle (nested JSON together = alone) alone.',
+         'from the initial register set; frame lemma: a subset\'s walk consumes a prefix and is unaffected by what follows) '
+         'and of the wiring pass (every subset is wired from the empty state): decoding the concatenation of n subset bit '
+         'strings gives, position by position, what decoding each alone gives; permuting the subsets permutes the result; '
+         'the encoder\'s bits and reports (labels, links) of together are those of each alone in a row, in any order; the node '
+         'tree of subset i is a function of the template and the flat lists of subset i alone, and the message fails to wire '
+         'iff some subset fails alone - for all templates of the model and any n; plus the tie to pybufrkit: '
+         'together-vs-alone oracle on the implementation (values, labels, links, nested JSON; alone = re-encoded and = cut at '
+         'the model\'s bit boundaries), encoder concatenation, all orders for n <= 4 / random orders above, model-vs-'
+         'implementation correspondence of flat lists and node trees on the together-message, on templates with differing '
+         'replication counts and bitmaps per subset, on templates that end inside an operator construct, and on templates '
+         'with several delayed replications of different elements in front of bitmap constructs whose per-subset factors '
+         'compensate each other (equal flat length and bitmap length, different arrangement).',
+    technique='Lean 4 theorems (frame lemma by mutual structural induction over the template walk; wiring per subset) + '
+              'metamorphic oracle on the implementation + checked model/implementation correspondence',
+    note='The mutable node objects of templatedata.py are modelled by value (View/Wire.lean): sharing of node objects '
+         'between subsets is visible to the oracle (nested JSON together = alone) and to the node-tree correspondence, '
+         'not to the theorems.',
 )
 
 
 # ---------------------------------------------------------------------------------------------
 # implementation observations
 def full_decode(b):
-    """-> (status, subsets [{d, v, l}], nested: list per subset | error tag)"""
+    """-> (status, subsets [{d, v, l}], nested: list per subset | error tag, node trees: list per subset | error tag)"""
     from pybufrkit.decoder import Decoder
     from pybufrkit.renderer import NestedJsonRenderer
     try:
         msg = Decoder().process(b, wire_template_data=False)
     except Exception as e:  # noqa
-        return core.err_tag(e), None, None
+        return core.err_tag(e), None, None, None
     td = msg.template_data.value
     subs = []
     for i in range(msg.n_subsets.value):
         subs.append({'d': [str(d) for d in td.decoded_descriptors_all_subsets[i]],
                      'v': list(td.decoded_values_all_subsets[i]),
                      'l': sorted([a, o] for a, o in td.bitmap_links_all_subsets[i].items())})
+    tree = None
     try:
         msg.wire()
+        try:
+            tree = [[views_io.node_canon(n) for n in td.decoded_nodes_all_subsets[i]] for i in range(msg.n_subsets.value)]
+        except (views_io.AttrCycle, RecursionError):
+            tree = 'err:other'
         nested = None
         for sec in NestedJsonRenderer().render(msg):
             for par in sec:
@@ -76,7 +95,9 @@ def full_decode(b):
             nested = 'err:no-template-data'
     except Exception as e:  # noqa
         nested = core.err_tag(e)
-    return 'ok', subs, nested
+        if tree is None:
+            tree = nested
+    return 'ok', subs, nested, tree
 
 
 def same_exact(x, y):
@@ -94,6 +115,25 @@ def subset_diff(x, y, wa, wb):
             return 'value differs at %d (%s): %s %r, %s %r' % (k, x['d'][k], wa, p, wb, q)
     if x['l'] != y['l']:
         return 'attribute links differ: %s %s, %s %s' % (wa, x['l'], wb, y['l'])
+    return None
+
+
+def compare_wire(oT, model):
+    """node trees of the implementation (together) vs the model's `wireAll` ; None when they agree"""
+    if oT[0] != 'ok' or 'err' in model:
+        return None                     # the flat correspondence reports a decoding disagreement
+    mw = model['wire']
+    tree = oT[3]
+    if isinstance(mw, dict):
+        if tree != 'err:' + mw['err']:
+            return 'wiring: implementation %s, model err:%s' % (tree if isinstance(tree, str) else 'ok', mw['err'])
+        return None
+    if isinstance(tree, str):
+        return 'wiring: implementation %s, model ok' % tree
+    if tree != mw:
+        k = next((k for k, (a, m) in enumerate(zip(tree, mw)) if a != m), min(len(tree), len(mw)))
+        return 'node tree differs in subset %d: implementation %s, model %s' % (
+            k, json.dumps(tree[k:k + 1])[:200], json.dumps(mw[k:k + 1])[:200])
     return None
 
 
@@ -326,6 +366,7 @@ def evaluate(drv, treq, cases, rng, quick=True):
         if t[0] == 'ok':
             slot[i] = len(reqs)
             reqs.append({'op': 'dec-subsets', 'ids': c.ids, 'n': c.n, 'bits': C.data_bits(t[1])})
+            reqs.append({'op': 'wire', 'ids': c.ids, 'compressed': False, 'n': c.n, 'bits': C.data_bits(t[1])})
     res = drv.batch(reqs) if len(reqs) > 1 else []
     for i, (c, t) in enumerate(zip(cases, together)):
         probs, info = [], {'enc': t[0]}
@@ -362,6 +403,12 @@ def evaluate(drv, treq, cases, rng, quick=True):
         why = P.compare_decode((oT[0], oT[1], len(bT)), model)
         if why:
             probs.append(('decode-correspondence', why, {'message_hex': bT.hex()}))
+        # correspondence of the wiring pass: model `wireAll` (Props/C06Wire.lean: subset by subset) vs the implementation's
+        # node trees of the together-message
+        why = compare_wire(oT, res[slot[i] + 1])
+        info['wire_compared'] = why is None and oT[0] == 'ok'
+        if why:
+            probs.append(('wire-correspondence', why, {'message_hex': bT.hex()}))
         # alone, re-encoded
         alone = [encode_msg(c, [vs]) for vs in c.valss]
         if any(a[0] != 'ok' for a in alone):
@@ -426,6 +473,18 @@ def evaluate(drv, treq, cases, rng, quick=True):
             k = next((k for k in range(c.n) if cat[k] != cuts[k]), -1)
             probs.append(('encoder-together-vs-alone', 'data bits of together are not the concatenation of the bits of each '
                           'subset alone (first difference in subset %d)' % k, {'message_hex': bT.hex()}))
+            # the decoder all the same, on the message the encoder should have produced (the alone bit strings in a row)
+            bC = C.replace_data(bT, ''.join(cat))
+            oC = C.impl_decode(bC)
+            if oC[0] != 'ok':
+                probs.append(('together-vs-alone', 'the alone bit strings in a row fail to decode (%s), every subset alone decodes' % oC[0],
+                              {'message_hex': bC.hex()}))
+            else:
+                for k in range(c.n):
+                    why = subset_diff(oC[1][k], oA[k][1][0], 'alone bit strings in a row', 'alone')
+                    if why:
+                        probs.append(('together-vs-alone', 'subset %d: %s' % (k, why), {'message_hex': bC.hex(), 'subset': k}))
+                        break
             continue
         # alone, cut at the model's boundaries (decoder on the very bits of the together-message)
         frame1 = alone[0][1]
@@ -532,6 +591,9 @@ def process(ctx, drv, treq, cases, rng, tag):
         ctx.count('subsets-%d' % c.n)
         if tag == 'family':
             ctx.count('family:' + c.note.split(' ')[0])
+        if tag == 'layout':
+            for tok in c.note.split(' ')[1:]:
+                ctx.count('layout:' + tok)
         if len(counts) > 1:
             ctx.count('subsets-of-different-length')
         if info.get('enc') != 'ok':
@@ -539,6 +601,8 @@ def process(ctx, drv, treq, cases, rng, tag):
         if info.get('dec'):
             ctx.traces += 1
             ctx.count('decode-' + info['dec'])
+        if info.get('wire_compared'):
+            ctx.count('node-trees-compared-with-model')
         if 'wired' in info:
             ctx.count('nested-json-' + ('compared' if info['wired'] else 'wiring-fails-both-ways'))
         ctx.count('orders-checked', info.get('perms', 0))
@@ -624,6 +688,18 @@ def run(ctx):
         gcases = [c for c in cases if not (id(c) in tags or c.note.startswith('witness'))]
         process(ctx, drv, treq, fcases, rng, 'family')
         process(ctx, drv, treq, gcases, rng, 'grammar')
+    # layout-varying bitmap templates (own random stream: the cases above do not depend on this part)
+    lrng = ctx.rng('layout')
+    lg = c06gen.LayoutGen(lrng)
+    n_layout = 250 if quick else 6000
+    done = 0
+    while done < n_layout:
+        m = min(125 if quick else 1000, n_layout - done)
+        pairs = [lg.make(done + i) for i in range(m)]
+        done += m
+        cases = gen_values(drv, treq, pairs, lrng)
+        ctx.count('values-not-generated', len(pairs) - len(cases))
+        process(ctx, drv, treq, cases, lrng, 'layout')
 
 
 def replay(ctx, path):
